@@ -1169,7 +1169,7 @@ class BaseLoss(object):
 
         sens = np.reshape(sens, (n, num_s, num_out), 'F')
         for j in range(num_out):
-            sens[:, :, j] *= self._weight
+            sens[:, :, j] *= np.reshape(self._weight, (n, num_s))
 
         grad = functools.reduce(np.add,map(np.dot, diff_loss, sens)).ravel()
 
@@ -1209,7 +1209,7 @@ class BaseLoss(object):
         sens = np.reshape(sens, (n, num_s, num_out), 'F')
 
         for j in range(num_out):
-            sens[:,:,j] *= self._weight
+            sens[:,:,j] *= np.reshape(self._weight, (n, num_s))
 
         for i, s in enumerate(sens):
             if resid is None:
